@@ -307,33 +307,35 @@ where
     let cio = guarded(|| if <Cfg<C> as CurveConfig>::cofactor_is_one() { "1".into() } else { "0".into() });
     ctx.out.line(&head, &cio);
 
-    // ---- how many points: the driver recomputes every reference scalar multiplication in the affine
-    // group (one field inversion per group operation); `weight` ≈ cost of one such multiplication
-    // relative to a 256-bit curve over a prime field
+    // ---- how many lines: the driver recomputes every reference scalar multiplication in the affine group
+    // (one field inversion per group operation).  `weight` ≈ size of one such multiplication relative to a
+    // 256-bit curve over a prime field; measured driver time per line ≈ 18 ms · weight^0.6.
     let dcost = [1.0, 1.0, 3.0, 6.0][deg.min(3)];
     let weight = dcost * (fbits / 256.0).powi(2) * ((rbits + hbits) / 512.0);
-    let total = if ctx.thorough {
-        ((100.0 / weight).round() as usize).clamp(10, 160)
+    let t_line = 18.0 * weight.powf(0.6);
+    let lines = if ctx.thorough {
+        (12000.0 / t_line).clamp(30.0, 300.0) as usize
     } else {
-        ((12.0 / weight).round() as usize).clamp(4, 12)
+        (1000.0 / t_line).clamp(6.0, 24.0) as usize
     };
-    // whole-curve points: small coordinates / largest coordinates / random coordinates
-    let n_small = (total / 5).max(1);
-    let n_neg = if total >= 8 { (total / 10).max(1) } else { 0 };
-    let n_rand = (total / 5).max(1);
-    // points r·P of small order, of which `n_tors` are split further into prime-order torsion
-    let n_q = (total / 6).max(1);
-    let n_tors = if ctx.thorough { (total / 12).max(1) } else { 1 };
-    // random subgroup points
-    let n_sub = (total / 5).max(1);
-    let n_samples = if ctx.thorough { (total / 6).max(2) } else { 1 };
+    // minimal plan (the 753/782-bit curves over Fp3 in the quick tier): one whole-curve point W, r·W, G
+    let minimal = lines <= 8;
+    let (n_w, n_s, n_g) = if minimal {
+        (1, 1, 1)
+    } else {
+        let pts = (lines - 2) * 10 / 23;
+        ((pts * 40 / 100).max(2), (pts * 25 / 100).max(1), (pts * 35 / 100).max(2))
+    };
+    let n_samples = if minimal { 1 } else if ctx.thorough { 2 * (lines / 20).max(2) } else { 2 };
 
     let mut rng = Sm::new(ctx.seed ^ id.bytes().fold(0u64, |a, b| a.wrapping_mul(131).wrapping_add(b as u64)));
 
-    // ---- points of the whole curve
+    // ---- points of the whole curve: small coordinates 0, 1, 2, … / largest coordinates p-1, … / random
+    let n_neg = if n_w >= 4 { (n_w / 5).max(1) } else { 0 };
+    let n_rand = if n_w >= 2 { ((n_w - n_neg) / 2).max(1) } else { 0 };
+    let n_small = n_w - n_neg - n_rand;
     let mut whole: Vec<C::A> = Vec::new();
     {
-        // small coordinates 0, 1, 2, …
         let mut k = 0u64;
         let mut hits = 0usize;
         while hits < n_small && k < 4000 {
@@ -343,7 +345,6 @@ where
             }
             k += 1;
         }
-        // the largest coordinates p-1, p-2, …
         let mut k = 1u64;
         let mut hits = 0usize;
         while hits < n_neg && k < 4000 {
@@ -353,7 +354,6 @@ where
             }
             k += 1;
         }
-        // random coordinates
         let mut hits = 0usize;
         while hits < n_rand {
             let c = BF::<C>::rand(&mut rng);
@@ -364,28 +364,34 @@ where
             }
         }
     }
-    // ---- small-order points: r·P, and for the small primes ℓ | h a point of order ℓ
+    // ---- small-order points, in order of priority: r·W; a point T of order ℓ for the small primes ℓ | h;
+    //      G + T (a point outside the subgroup with a subgroup component); points of order ℓ²
     let h = biguint(cof);
-    let mut small: Vec<C::A> = C::extra();
+    let mut small: Vec<C::A> = Vec::new();
+    let mut second: Vec<C::A> = Vec::new();
     if h > BigUint::from(1u32) {
-        let nq = n_q.min(whole.len());
-        for (i, p) in whole.iter().take(nq).enumerate() {
+        let zero = BigUint::from(0u32);
+        let primes: &[u32] = if ctx.thorough { &[2, 3, 5, 7, 11, 13] } else { &[2, 3] };
+        for (i, p) in whole.iter().enumerate() {
+            if small.len() >= n_s {
+                break;
+            }
             let q: C::A = match aff::<C::A>(p.mul_bigint(&rl)) {
                 Some(q) => q,
                 None => continue,
             };
             small.push(q);
-            if i >= n_tors {
+            if i >= 1 && !ctx.thorough {
                 continue;
             }
-            for l in [2u32, 3, 5, 7, 11, 13] {
+            for l in primes.iter().copied() {
                 let lb = BigUint::from(l);
-                if (&h % &lb) != BigUint::from(0u32) {
+                if (&h % &lb) != zero {
                     continue;
                 }
                 let mut hh = h.clone();
                 let mut v = 0;
-                while (&hh % &lb) == BigUint::from(0u32) {
+                while (&hh % &lb) == zero {
                     hh /= &lb;
                     v += 1;
                 }
@@ -404,48 +410,55 @@ where
                     if t2.is_zero() {
                         break;
                     }
-                    // a point of order ℓ² … as well, once
                     if i == 0 {
-                        small.push(t);
+                        second.push(t); // order ℓ^k, k ≥ 2
                     }
                     t = t2;
                 }
                 small.push(t);
-                // subgroup point + small-order point
                 if let Some(g) = aff::<C::A>(C::A::generator() + t) {
-                    small.push(g);
+                    if l == 2 || ctx.thorough {
+                        small.push(g);
+                    } else {
+                        second.push(g);
+                    }
                 }
             }
         }
+        small.extend(C::extra());
+        small.extend(second);
+        small.truncate(n_s.max(if minimal { 1 } else { 3 }));
     }
-    // ---- subgroup points
+    // ---- subgroup points: O, G, random multiples of G (thorough: -G, 2G, (r-1)/2·G)
     let g = C::A::generator();
-    let mut sub: Vec<C::A> = vec![C::A::zero(), g];
-    if ctx.thorough {
-        sub.push(-g);
-        sub.push((g + g).into());
-    }
-    for _ in 0..n_sub {
+    let mut sub: Vec<C::A> = vec![g];
+    for _ in 0..n_g.saturating_sub(1) {
         let k = SF::<C>::rand(&mut rng);
         sub.push(g.mul_bigint(k.into_bigint()).into());
     }
-    // r-1, r+1 multiples of the generator written as scalars mod r: -G, and (r-1)/2·G
+    if !minimal {
+        sub.push(C::A::zero());
+    }
     if ctx.thorough {
+        sub.push(-g);
+        sub.push((g + g).into());
         let mut half = r;
         half.div2();
         sub.push(g.mul_bigint(half).into());
     }
 
+    // (point, is a subgroup point, run `clear` on it)
     let mut seen = std::collections::HashSet::new();
-    let all: Vec<(C::A, bool)> = whole
+    let all: Vec<(C::A, bool, bool)> = whole
         .iter()
-        .map(|p| (*p, false))
-        .chain(small.iter().map(|p| (*p, false)))
-        .chain(sub.iter().map(|p| (*p, true)))
-        .filter(|(p, _)| seen.insert(C::show(p)))
+        .enumerate()
+        .map(|(i, p)| (*p, false, !minimal || i == 0))
+        .chain(small.iter().map(|p| (*p, false, !minimal || lines >= 8)))
+        .chain(sub.iter().map(|p| (*p, true, !minimal)))
+        .filter(|(p, _, _)| seen.insert(C::show(p)))
         .collect();
 
-    for (p, is_sub) in all.iter() {
+    for (p, is_sub, do_clear) in all.iter() {
         if !C::on_curve(p) {
             // generator bug: never feed off-curve points
             eprintln!("c12: off-curve input for {}", id);
@@ -457,14 +470,16 @@ where
         let res = guarded(|| if C::insub(p) { "1".into() } else { "0".into() });
         ctx.out.line(&format!("C12 insub {} {} {}", id, ps, href), &res);
         // clear
-        let href = guarded(|| {
-            let q: C::A = p.mul_bigint(&heff).into();
-            C::show(&q)
-        });
-        let res = guarded(|| C::show(&p.clear_cofactor()));
-        ctx.out.line(&format!("C12 clear {} {} {}", id, ps, href), &res);
-        // mul_by_cofactor on every point
-        if ctx.thorough {
+        if *do_clear {
+            let href = guarded(|| {
+                let q: C::A = p.mul_bigint(&heff).into();
+                C::show(&q)
+            });
+            let res = guarded(|| C::show(&p.clear_cofactor()));
+            ctx.out.line(&format!("C12 clear {} {} {}", id, ps, href), &res);
+        }
+        // mul_by_cofactor (thorough only: `rand` and the default `clear` go through it anyway)
+        if ctx.thorough && clear != "def" {
             let res = guarded(|| C::show(&p.mul_by_cofactor()));
             ctx.out.line(&format!("C12 mulcof {} {}", id, ps), &res);
         }
@@ -476,9 +491,8 @@ where
     }
 
     // ---- random sampling
-    let ns = n_samples;
-    for i in 0..2 * ns {
-        let proj = i % 2 == 1;
+    for i in 0..n_samples {
+        let proj = (i + if minimal { ctx.seed as usize } else { 0 }) % 2 == 1;
         let mut replay = rng.clone();
         let cand = loop {
             let c = BF::<C>::rand(&mut replay);
